@@ -224,9 +224,15 @@ func (self *CallStm) format(printer *printer, prefix string) {
 		self.Modifiers.Local || self.Modifiers.Preflight || self.Modifiers.Volatile) {
 		if self.Modifiers.Bindings == nil {
 			self.Modifiers.Bindings = &BindStms{
-				Node: self.Node,
+				// Only the location: the comments of the call
+				// have already been printed.
+				Node: AstNode{Loc: self.Node.Loc},
 			}
 		}
+		// The node for modifiers converted from the unbound form.  It must
+		// not carry the comments of the node it takes its location from, or
+		// they would be printed again.
+		modNode := AstNode{Loc: self.Modifiers.Bindings.Node.Loc}
 		printer.mustWriteString(") using (\n")
 		// Convert unbound-form mods to bound form.
 		// Because we remove elements from the binding table if they're
@@ -245,10 +251,10 @@ func (self *CallStm) format(printer *printer, prefix string) {
 		if self.Modifiers.Local && !foundMods.Local {
 			self.Modifiers.Bindings.List = append(self.Modifiers.Bindings.List,
 				&BindStm{
-					Node: self.Modifiers.Bindings.Node,
+					Node: modNode,
 					Id:   "local",
 					Exp: &BoolExp{
-						valExp: valExp{Node: self.Modifiers.Bindings.Node},
+						valExp: valExp{Node: modNode},
 						Value:  true,
 					},
 				})
@@ -256,10 +262,10 @@ func (self *CallStm) format(printer *printer, prefix string) {
 		if self.Modifiers.Preflight && !foundMods.Preflight {
 			self.Modifiers.Bindings.List = append(self.Modifiers.Bindings.List,
 				&BindStm{
-					Node: self.Modifiers.Bindings.Node,
+					Node: modNode,
 					Id:   "preflight",
 					Exp: &BoolExp{
-						valExp: valExp{Node: self.Modifiers.Bindings.Node},
+						valExp: valExp{Node: modNode},
 						Value:  true,
 					},
 				})
@@ -267,10 +273,10 @@ func (self *CallStm) format(printer *printer, prefix string) {
 		if self.Modifiers.Volatile && !foundMods.Volatile {
 			self.Modifiers.Bindings.List = append(self.Modifiers.Bindings.List,
 				&BindStm{
-					Node: self.Modifiers.Bindings.Node,
+					Node: modNode,
 					Id:   "volatile",
 					Exp: &BoolExp{
-						valExp: valExp{Node: self.Modifiers.Bindings.Node},
+						valExp: valExp{Node: modNode},
 						Value:  true,
 					},
 				})
